@@ -139,6 +139,8 @@ def run(ctx):
     ia = i.single_atom() if isinstance(i, Form) else None
     if i in ok_forms:
         ctx.holds("C18.3", fs_, rets[0].node, "shortest_int: index = argmin(sorted[lag:] - sorted[:-lag])", "a minimiser of the lag-differences")
+    elif ia and ia[0] == "idx" and isinstance(ia[1], Form) and any(a[0] == "fn" and a[1] == "max" for a in ia[1].atoms()) and not any(a[0] == "fn" and a[1] == "min" for a in ia[1].atoms()):
+        ctx.violation("C18.3", fs_, rets[0].node, "shortest_int: index taken where the lag-difference is maximal", "the widest instead of the shortest interval is selected")
     elif ia and ia[0] == "idx" and ia[1] in tie_sets:
         ctx.holds("C18.3", fs_, rets[0].node, f"shortest_int: index = element [{ia[2]!r}] of where(diff == min(diff))"[:200], "an element of the set of exact minimisers")
     else:
